@@ -59,4 +59,58 @@ PLANS = {
         'design_ref': 'DESIGN.md 5.6',
         'level_note': 'trusted: witness checkers in props/c15.py and ref/cfg.py, reference acceptance (ref/fa.py, ref/pda.py); termination judged by deterministic tick budget',
     },
+    'C06': {
+        'quick': {'rounds': 32, 'wall_cap_s': 150},
+        'thorough': {'rounds': 96, 'wall_cap_s': 1500},
+        'rule': ('cases = (a) regular-expression trees with 0-10 operator nodes over <= 3 single-letter symbols (leaf mix drawn per case, '
+                 'corner corpus with 0/1 under star and in products) -> regexp_to_nfa; (b) complete DFAs with 1-5 states (+<=1 unreachable), |Sigma| 1-2, '
+                 'and split-state DFAs -> dfa_to_regexp; states renamed and list-shuffled per case (names start/accept in the pool), run under the round\'s '
+                 'PYTHONHASHSEED in a pristine fork. Oracle: exact language equality of canonical minimal DFAs. distinct = distinct abstract input; '
+                 'non-trivial = language neither empty nor Sigma* (and >= 2 states for DFAs).'),
+        'schedule_measure': 'distinct (abstract input, iteration order of the DFA\'s Q/Sigma/F sets resp. of the result NFA\'s Q) pairs; the elimination order is the iteration order of Q - {start, accept}',
+        'assumptions': COMMON_ASSUMPTIONS + ['inputs are bounded (<= 6 DFA states) because extracted expressions grow exponentially; larger inputs are excluded for cost only'],
+        'expected_probes': ['kind_regexp', 'kind_dfa', 'nontrivial', 'state_named_start_or_accept'],
+        'technique': 'deterministic simulation: seeded search over state-elimination schedules (PYTHONHASHSEED x renaming x insertion order); exact language-equality oracle via reference Thompson/subset/minimal-DFA; minimised replay files',
+        'level_text': 'seeded sampling of regular expressions and DFAs x elimination orders; exact (all word lengths) language comparison against independent reference constructions; evidence, not proof',
+        'design_ref': 'DESIGN.md 5.3',
+        'level_note': 'trusted: /verif/ref/regexp.py (Thompson; cross-checked against Brzozowski derivatives) and /verif/ref/fa.py',
+    },
+    'C08': {
+        'quick': {'rounds': 32, 'wall_cap_s': 150},
+        'thorough': {'rounds': 96, 'wall_cap_s': 1500},
+        'rule': ('cases = grammars with 1-6 variables (12%: padded to 23-30 variables incl. multi-letter names so that cfg_fresh_variable crosses its '
+                 '26 boundary), 0-3 rules per variable of length 0-4 over <= 3 terminals; drawn features: epsilon rules, unit rules and unit cycles, '
+                 'shared right-hand sides, start variable on a right-hand side, useless variables; variables renamed (A-Z permutation / multi-letter) and sets '
+                 'list-shuffled per case; per case: cfg_to_chomsky, the five phase functions in pipeline order (each on the previous output) and '
+                 'cfg_apply_chomsky(G, phase, hint) with clashing and non-clashing hints (evaluations counts calls). Oracle: bounded language equality '
+                 '(words <= 4..7 depending on |Sigma|, reference fixpoint on both sides), phase postconditions, V_before subset of V_after, new start variable new, '
+                 'validity, argument snapshot incl. rule order. distinct = distinct abstract grammar; non-trivial = >= 2 words within the bound and some phase after the first changes the rule set.'),
+        'schedule_measure': 'distinct (abstract grammar, iteration order of its V and Sigma sets) pairs',
+        'assumptions': COMMON_ASSUMPTIONS + ['language comparison is bounded in word length (can refute, not prove, equality)',
+                                             'phases are only applied in pipeline order, which is all the statement promises'],
+        'expected_probes': ['at_least_26_variables', 'multi_letter_variable', 'nullable_start', 'hint_clashes_with_variable', 'nontrivial',
+                            'apply_phase_0', 'apply_phase_1', 'apply_phase_2', 'apply_phase_3', 'apply_phase_4', 'apply_phase_5'],
+        'technique': 'deterministic simulation: seeded search over variable-iteration schedules (PYTHONHASHSEED x variable renaming x insertion order); bounded reference-language oracle plus phase postconditions and argument snapshots; minimised replay files',
+        'level_text': 'seeded sampling of grammars x schedules; every phase result is compared with an independent bounded language fixpoint, its own postcondition is re-checked by reference predicates, and the argument is snapshotted before/after (rule order included); evidence, not proof',
+        'design_ref': 'DESIGN.md 5.4',
+        'level_note': 'trusted: /verif/ref/cfg.py (fixpoint cross-checked against CYK on CNF grammars); bounded word length',
+    },
+    'C09': {
+        'quick': {'rounds': 32, 'wall_cap_s': 150},
+        'thorough': {'rounds': 96, 'wall_cap_s': 1500},
+        'rule': ('cases = sessions over one PDA (1-4 states, |Sigma| 1-2, |Gamma| 1-2, 1-8 transitions of the four shapes push/pop/replace/no-op, '
+                 'epsilon moves incl. stack-growing and stack-neutral cycles) of 6-8 steps "set closure limit; pda_accepts_word(P, w)" with |w| <= 4; '
+                 'limits drawn from {0,1,2,3,5,10,40,1000} and from {exact largest closure size -1, +0, +1} computed by the reference; states/symbols/epsilon '
+                 'renamed per case, run under the round\'s PYTHONHASHSEED in a pristine fork (one evaluation = one call). Oracle: exact acceptance by '
+                 'matched push/pop summaries (unbounded stacks, epsilon cycles); soundness demanded always, completeness when every exact closure has <= limit configurations. '
+                 'distinct = distinct abstract PDA; non-trivial = some epsilon-closure of the session has >= 3 configurations.'),
+        'schedule_measure': 'distinct (abstract PDA, iteration order of its Q/Sigma/Gamma/F sets) pairs; truncation order is todo.pop()',
+        'assumptions': COMMON_ASSUMPTIONS + ['"each epsilon-closure it has to compute" is read as the exact closed configuration sets C0, C1, ... of the textbook algorithm'],
+        'expected_probes': ['closure_exceeds_limit', 'closure_exceeds_1000', 'limit_equals_closure_size', 'limit_is_closure_size_plus_one',
+                            'limit_is_closure_size_minus_one', 'truncated_and_accepting', 'truncated_and_missed', 'nontrivial'],
+        'technique': 'deterministic simulation: seeded sessions over the ambient closure-limit knob x truncation schedules (PYTHONHASHSEED x renaming); exact reference acceptance (matched push/pop summaries) and exact closure sizes; minimised replay files',
+        'level_text': 'seeded sampling of PDAs x words x limit settings x schedules; soundness is checked unconditionally and completeness exactly when the reference proves every closure fits under the limit; evidence, not proof',
+        'design_ref': 'DESIGN.md 5.5',
+        'level_note': 'trusted: /verif/ref/pda.py (summaries cross-checked against capped configuration BFS in selftest and again inside every case that BFS can decide)',
+    },
 }
